@@ -56,7 +56,7 @@ Definition c16_ok (c:c16_case) : bool :=
   match k_new c, k_script c with
   | None, None => true
   | Some n, Some s =>
-      match delta column_order (Nat.max (fuel_of (k_old c)) (fuel_of n)) id_ord (k_old c) n with
+      match delta delta_cfg column_order (Nat.max (fuel_of (k_old c)) (fuel_of n)) id_ord (k_old c) n with
       | Ok l => list_eqb ddl_eqb l s
       | OutOfFuel => false
       end
